@@ -218,6 +218,30 @@ EXTERNAL_REMOVE_RECORDING = False
 ACTIVE_REC = None
 
 
+class HarnessTimeout(BaseException):
+    """Raised in the calling thread by the watchdog when run_tasks does not end."""
+
+
+class watchdog:
+    def __init__(self, seconds):
+        self.seconds = seconds
+
+    def __enter__(self):
+        import signal
+
+        def on_alarm(signum, frame):
+            raise HarnessTimeout(f'run_tasks still running after {self.seconds}s')
+        self.old = signal.signal(signal.SIGALRM, on_alarm)
+        signal.setitimer(signal.ITIMER_REAL, self.seconds)
+        return self
+
+    def __exit__(self, *a):
+        import signal
+        signal.setitimer(signal.ITIMER_REAL, 0)
+        signal.signal(signal.SIGALRM, self.old)
+        return False
+
+
 class Deadlock(Exception):
     pass
 
@@ -403,10 +427,10 @@ class Recorder:
             self.batches[-1][-1][1] = order
 
     def on_map(self, results_map):
-        self.ev.append(('map', sorted(self.tid(t) for t in results_map)))
+        self.ev.append(('map', sorted(self.tid_of.get(t, 9999) for t in results_map)))
 
     def on_close(self, results_map):
-        self.final_rmap = sorted(self.tid(t) for t in results_map)
+        self.final_rmap = sorted(self.tid_of.get(t, 9999) for t in results_map)      # 9999: a task this run never saw
         self.ev.append(('close',))
 
 
@@ -442,8 +466,12 @@ def run_case(case, workdir=None, backend_factory=None, catch_ki=False, around_ru
     obs = dict(outcome=None, returned=None, exc=None)
     import contextlib
     try:
-        with (around_run if around_run is not None else contextlib.nullcontext()):
-            res = lab.run_tasks(built.req, bust_cache=case['bust'], disable_progress=True, disable_top=True)
+        with watchdog(case.get('watchdog_s', 45)):
+            with (around_run if around_run is not None else contextlib.nullcontext()):
+                res = lab.run_tasks(built.req, bust_cache=case['bust'], disable_progress=True, disable_top=True)
+    except HarnessTimeout as e:
+        obs['outcome'] = 'hang'
+        obs['exc'] = repr(e)
     except Deadlock:
         obs['outcome'] = 'stuck'
     except LabError as e:
